@@ -28,14 +28,15 @@ VAdvise(e) ==
   LET held == HoldsShare(S, e.si, e.sh)
       fits == e.replen <= AvailableSpace(S)
       T == Advise(S, e.si, e.sh, e.replen)
-      A == AdviseAdv(adv, S, e.type, e.si, e.sh, e.reason, e.replen)
+      typ == IF e.via = "reader" THEN ReaderAdviseType ELSE e.type     \* a BucketReader knows what it is reading
+      A == AdviseAdv(adv, S, typ, e.si, e.sh, e.reason, e.replen)
       got == NormReports(e.reports)
   IN IF e.free # AvailableSpace(S) THEN W("harness_free_mismatch", S, adv)
      ELSE IF e.res # AdviseRes(S, e.si, e.sh, e.replen) THEN W("ADV_answer_not_none", S, adv)
      ELSE IF ~(adv \subseteq got) THEN W("ADV_report_lost", S, adv)
      ELSE IF ~held /\ got # adv THEN W("ADV_recorded_for_share_not_held", S, adv)
      ELSE IF held /\ ~fits /\ got # adv THEN W("ADV_recorded_beyond_available_space", S, adv)
-     ELSE IF held /\ fits /\ got = adv /\ Report(e.type, e.si, e.sh, e.reason) \notin adv THEN W("ADV_not_recorded", S, adv)
+     ELSE IF held /\ fits /\ got = adv /\ Report(typ, e.si, e.sh, e.reason) \notin adv THEN W("ADV_not_recorded", S, adv)
      ELSE IF got # A THEN W("ADV_report_content", S, adv)
      ELSE IF held /\ fits /\ e.written # e.replen THEN W("harness_report_size_differs_from_twin", S, adv)
      ELSE IF \E si \in DOMAIN e.obsall : ~ObsOK(T, si, e.obsall[si]) THEN W("ADV_changed_share_state", S, adv)
